@@ -80,14 +80,14 @@ def t_update(ex):
     def fobj(loc, sums):
         return types.SimpleNamespace(is_reg=True, location=loc, dirname=os.path.dirname(loc) or "/", chksums=sums)
     objs = [fobj("/pkg-1.ebuild", {"size": 10, "blake2b": 1}), fobj("/pkg-2.ebuild", {"size": 11, "blake2b": 2}), fobj("/metadata.xml", {"size": 5, "blake2b": 3}),
-            fobj("/files/fix.patch", {"size": 7, "blake2b": 4}), fobj("/files/a/b.patch", {"size": 8, "blake2b": 5}), types.SimpleNamespace(is_reg=False, location="/files", dirname="/", chksums={}),
+            fobj("/files/fix.patch", {"size": 7, "blake2b": 4}), fobj("/files/a/b.patch", {"size": 8, "blake2b": 5}), fobj("/files/a/files/c.conf", {"size": 9, "blake2b": 10}), fobj("/files/files", {"size": 3, "blake2b": 11}), types.SimpleNamespace(is_reg=False, location="/files", dirname="/", chksums={}),
             fobj("/Manifest", {"size": 1, "blake2b": 9})]
     fetch = [types.SimpleNamespace(filename="pkg-2.tar.gz", chksums={"size": 100, "sha512": 7, "blake2b": 6}), types.SimpleNamespace(filename="pkg-1.tar.gz", chksums={"blake2b": 8, "size": 99, "sha512": 9})]
     if listing:
         objs, fetch = objs[::-1], fetch[::-1]
     it.models[D.iter_scan] = lambda it_, *a, **k: list(objs)
     L = lambda t, n, sums: D._manifest_line(t, n, sums)
-    lines = {"AUX": [L("AUX", "a/b.patch", {"size": 8, "blake2b": 5}), L("AUX", "fix.patch", {"size": 7, "blake2b": 4})],
+    lines = {"AUX": [L("AUX", "a/b.patch", {"size": 8, "blake2b": 5}), L("AUX", "a/files/c.conf", {"size": 9, "blake2b": 10}), L("AUX", "files", {"size": 3, "blake2b": 11}), L("AUX", "fix.patch", {"size": 7, "blake2b": 4})],
              "DIST": [L("DIST", "pkg-1.tar.gz", {"size": 99, "blake2b": 8, "sha512": 9}), L("DIST", "pkg-2.tar.gz", {"size": 100, "blake2b": 6, "sha512": 7})],
              "EBUILD": [L("EBUILD", "pkg-1.ebuild", {"size": 10, "blake2b": 1}), L("EBUILD", "pkg-2.ebuild", {"size": 11, "blake2b": 2})], "MISC": [L("MISC", "metadata.xml", {"size": 5, "blake2b": 3})]}
     want = "".join(lines["DIST"]) if thin else "".join(lines["AUX"] + lines["DIST"] + lines["EBUILD"] + lines["MISC"])
@@ -171,6 +171,11 @@ def enum_manifests(seed):
                 names["files/sub/deep.patch"] = "q"
             if rnd.random() < .3:
                 names["ChangeLog"] = "c"
+            if rnd.random() < .4:   # a directory called files below files/, and a file called files
+                os.makedirs(os.path.join(d, "files", "sub", "files"))
+                names["files/sub/files/nested.conf"] = "n" * rnd.randrange(1, 20)
+                if rnd.random() < .5:
+                    names["files/files.conf"] = "ff"
             for n, data in names.items():
                 open(os.path.join(d, n), "w").write(data)
             chf_orders = [("size", "blake2b", "sha512"), ("size", "sha512", "blake2b"), ("sha512", "size", "blake2b")]
@@ -241,7 +246,7 @@ def enum_manifests(seed):
                         note({"seed": s, "thin": thin}, f"regeneration interrupted in the middle of the write left a Manifest that is neither the old nor the new text: {after[:80]!r}")
     finally:
         shutil.rmtree(scratch, ignore_errors=True)
-    return {"name": "C28.manifests.bounded_enumeration", "bound": "40 seeded package directories (2..6 files incl. files/ subtrees, 0..3 distfiles with random sizes and 512-bit checksums) x thick / thin x 3 checksum-type orders with shuffled fetchables: "
+    return {"name": "C28.manifests.bounded_enumeration", "bound": "40 seeded package directories (2..8 files incl. files/ subtrees and a nested directory itself called files, 0..3 distfiles with random sizes and 512-bit checksums) x thick / thin x 3 checksum-type orders with shuffled fetchables: "
             "parse back, text equality across orders, regeneration writes nothing, write interrupted half way", "cases": cases, "failures": fails}
 
 
